@@ -40,12 +40,17 @@ CONSTANTS Secrets, Phantoms, Transports,  \* sets of strings
           MaxCount,                       \* cap on the duplicate counter (bounding only)
           TickSteps,                      \* set of admissible time advances
           MaxTracked,                     \* state constraint: registrations tracked at once
+          IndexMode,                      \* "exact": the per-phantom index (outer map of `decoys`) has an entry exactly for the phantoms that
+                                          \* carry a tracked registration ("forgotten entirely");  "keep-unvalidated": the entry of a phantom
+                                          \* whose last registration is removed WITHOUT ever having been validated stays behind, empty
+                                          \* (a broken instance: state grows with every dropped registration)
           SweepCap                        \* 0: one sweep removes EVERY expired registration (what the property states - "after a clean-up
                                           \* sweep ... if and only if"); n > 0: a sweep stops after n removals (a broken instance)
 
 VARIABLES reg,    \* [Keys -> {None} \cup [valid, count]]
           tmo,    \* [TKeys -> {None} \cup [k, age, used]]
           swept,  \* TRUE from the end of a sweep until time passes
+          idx,    \* the phantoms the per-phantom index has an entry for
           obs     \* observation of the last action (name, arguments, result, projected state)
 
 None == [none |-> TRUE]
@@ -53,8 +58,8 @@ Keys == Phantoms \X Transports \X Secrets
 TKey(k) == IF KeyMode = "secret" THEN <<k[1], "*", k[3]>> ELSE k
 TKeys == {TKey(k) : k \in Keys}
 
-vars == <<reg, tmo, swept, obs>>
-view == <<reg, tmo, swept>>
+vars == <<reg, tmo, swept, idx, obs>>
+view == <<reg, tmo, swept, idx>>
 
 Expired(r) == (~r.used /\ r.age > TU) \/ r.age > TA
 
@@ -67,11 +72,11 @@ TmoProj(tm) == {[p |-> tm[tk].k[1], t |-> tm[tk].k[2], s |-> tm[tk].k[3], age |-
 Look(rg) == [p \in Phantoms |->
                [found |-> {[t |-> k[2], s |-> k[3]] : k \in {kk \in Keys : kk[1] = p /\ rg[kk] # None /\ rg[kk].valid}},
                 count |-> Cardinality({kk \in Keys : kk[1] = p /\ rg[kk] # None})]]
-Proj(rg, tm) == [reg |-> RegProj(rg), tmo |-> TmoProj(tm), look |-> Look(rg)]
+Proj(rg, tm, ix) == [reg |-> RegProj(rg), tmo |-> TmoProj(tm), look |-> Look(rg), idx |-> ix]
 
 Init == /\ reg = [k \in Keys |-> None]
         /\ tmo = [tk \in TKeys |-> None]
-        /\ swept = TRUE
+        /\ swept = TRUE /\ idx = {}
         /\ obs = [a |-> "Init"]
 
 Inc(c) == IF c < MaxCount THEN c + 1 ELSE c
@@ -85,19 +90,19 @@ TrackEffect(k, rg, tm) ==
 
 Track(k) ==
   LET e == TrackEffect(k, reg, tmo) IN
-  /\ reg' = e[1] /\ tmo' = e[2]
+  /\ reg' = e[1] /\ tmo' = e[2] /\ idx' = idx \cup {k[1]}
   /\ UNCHANGED swept
-  /\ obs' = [a |-> "Track", p |-> k[1], t |-> k[2], s |-> k[3], st |-> Proj(e[1], e[2])]
+  /\ obs' = [a |-> "Track", p |-> k[1], t |-> k[2], s |-> k[3], st |-> Proj(e[1], e[2], idx')]
 
 \* r.register(addr, d): track if unknown; first validation announces New exactly once
 Register(k) ==
   LET e == IF reg[k] = None THEN TrackEffect(k, reg, tmo) ELSE <<reg, tmo>>
       announce == ~e[1][k].valid
       rg2 == [e[1] EXCEPT ![k].valid = TRUE] IN
-  /\ reg' = rg2 /\ tmo' = e[2]
+  /\ reg' = rg2 /\ tmo' = e[2] /\ idx' = idx \cup {k[1]}
   /\ UNCHANGED swept
   /\ obs' = [a |-> "Register", p |-> k[1], t |-> k[2], s |-> k[3],
-             announced |-> announce, st |-> Proj(rg2, e[2])]
+             announced |-> announce, st |-> Proj(rg2, e[2], idx')]
 
 \* r.markActive(d): the expiry record found under d's key becomes "used"; announce Update
 MarkActive(k) ==
@@ -105,29 +110,33 @@ MarkActive(k) ==
   /\ LET hit == tmo[TKey(k)] # None
          tm2 == IF hit THEN [tmo EXCEPT ![TKey(k)].used = TRUE] ELSE tmo IN
      /\ tmo' = tm2
-     /\ UNCHANGED <<reg, swept>>
+     /\ UNCHANGED <<reg, swept, idx>>
      /\ obs' = [a |-> "MarkActive", p |-> k[1], t |-> k[2], s |-> k[3],
-                announced |-> hit, st |-> Proj(reg, tm2)]
+                announced |-> hit, st |-> Proj(reg, tm2, idx)]
 
 \* getRegistrations(p) (only valid ones) and countRegistrations(p) (all tracked)
 Lookup(p) ==
-  /\ UNCHANGED <<reg, tmo, swept>>
+  /\ UNCHANGED <<reg, tmo, swept, idx>>
   /\ obs' = [a |-> "Lookup", p |-> p,
              found |-> {[t |-> k[2], s |-> k[3]] : k \in {kk \in Keys : kk[1] = p /\ reg[kk] # None /\ reg[kk].valid}},
              count |-> Cardinality({kk \in Keys : kk[1] = p /\ reg[kk] # None}),
-             st |-> Proj(reg, tmo)]
+             st |-> Proj(reg, tmo, idx)]
 
 Tick(d) ==
   /\ d \in TickSteps
   /\ tmo' = [tk \in TKeys |-> IF tmo[tk] = None THEN None
                                ELSE [tmo[tk] EXCEPT !.age = IF @ + d > MaxAge THEN MaxAge ELSE @ + d]]
   /\ swept' = FALSE
-  /\ UNCHANGED reg
-  /\ obs' = [a |-> "Tick", d |-> d, st |-> Proj(reg, tmo')]
+  /\ UNCHANGED <<reg, idx>>
+  /\ obs' = [a |-> "Tick", d |-> d, st |-> Proj(reg, tmo', idx)]
 
 \* removeOldRegistrations: every expired expiry record whose registration object still exists is
 \* removed together with the object; a record whose object vanished is left behind (removeRegistration
 \* returns nil before deleting anything).
+StillOn(p, rg) == \E k \in Keys : k[1] = p /\ rg[k] # None
+LeftBehind(p, gone) == /\ IndexMode = "keep-unvalidated"
+                       /\ \E k \in gone : k[1] = p
+                       /\ \A k \in gone : (k[1] = p) => ~reg[k].valid
 Sweep ==
   LET ex == {tk \in TKeys : tmo[tk] # None /\ Expired(tmo[tk])}
       rmAll == {tk \in ex : reg[tmo[tk].k] # None}
@@ -137,9 +146,11 @@ Sweep ==
   /\ tmo' = [tk \in TKeys |-> IF tk \in rm THEN None ELSE tmo[tk]]
   /\ reg' = [k \in Keys |-> IF k \in gone THEN None ELSE reg[k]]
   /\ swept' = TRUE
+  \* removeRegistration drops the phantom's entry of the index together with the last registration on it
+  /\ idx' = {p \in idx : StillOn(p, reg') \/ LeftBehind(p, gone)}
   /\ obs' = [a |-> "Sweep", expired |-> Cardinality(ex),
              validExpired |-> Cardinality({tk \in rm : reg[tmo[tk].k].valid}),
-             st |-> Proj(reg', tmo')]
+             st |-> Proj(reg', tmo', idx')]
 
 NextNoLookup == \/ \E k \in Keys : Track(k) \/ Register(k) \/ MarkActive(k)
                 \/ \E d \in TickSteps : Tick(d)
@@ -161,6 +172,9 @@ TypeOK == /\ \A k \in Keys : reg[k] = None \/ (reg[k].valid \in BOOLEAN /\ reg[k
 OneRecordPerRegistration ==
   /\ \A k \in Keys : reg[k] # None => (tmo[TKey(k)] # None /\ tmo[TKey(k)].k = k)
   /\ \A tk \in TKeys : tmo[tk] # None => reg[tmo[tk].k] # None
+
+\* "forgotten entirely": the per-phantom index names exactly the phantoms that carry a tracked registration
+IndexExact == idx = {p \in Phantoms : \E k \in Keys : k[1] = p /\ reg[k] # None}
 
 \* after a completed sweep: tracked <=> younger than the lifetime that applies
 PostSweepExact ==
